@@ -165,6 +165,23 @@ def query_model(enums):
     return info
 
 
+CLASH_IDENTS = ['Ok', 'Err', 'Error', 'Some', 'None', 'Item', 'Iterator', 'Default', 'Output', 'Discriminant', 'Target', 'Iter', 'Table']
+
+
+def clash_enum(pid, derives, feats, kinds=(('unit', []),), skip=()):
+    """variants named like associated items (`Err`, `Error`, `Item`, `Iterator`, `Discriminant`, `Output`) and prelude items"""
+    e = ESpec(id='%sclash' % pid.lower(), name='En%sClash' % pid, derives=list(derives), feats=list(feats))
+    for i, n in enumerate(x for x in CLASH_IDENTS if x not in skip):
+        kind = kinds[i % len(kinds)]
+        v = VSpec(ident=n, kind=kind[0], ftypes=list(kind[1]))
+        if kind[0] == 'named':
+            v.fnames, v.fdw = FIELD_NAMES[:len(kind[1])], [None] * len(kind[1])
+        e.variants.append(v)
+    e.extra['shape'] = 'variants named like associated / prelude items'
+    e.extra['no_noise'] = True
+    return e
+
+
 def overlap_enums(pid, derives=('EnumString',), feats=('parse',)):
     """two variants sharing a byte-identical spelling, one exact and one ASCII-case-insensitive, in both orders; the
     inputs that only the insensitive one accepts are decided pointwise"""
